@@ -43,7 +43,13 @@ def layout(ctx):
     ctx.ob("ROLE", "LinearFourRates.update", "one increment of the confusion matrix per sample", len(mu) == 1 and mu[0].aug == ("Add", const(1)), "")
     ctx.require(mu, "confusion matrix increment")
     path = [p[1] for p in mu[0].path if p[0] == "item"]
+    if len(path) == 1 and (path[0].single_atom() or ("",))[0] == "tuple" and len(path[0].single_atom()[1]) == 2:
+        path = list(path[0].single_atom()[1])  # confusion[a, b]
     ctx.require(len(path) == 2, "confusion[a][b] += 1")
+    # a boolean label used as an index selects by mask, not by position: the labels must be coerced to integers first
+    coerced = {T.akey(e.value) for e in tr.of("coerce")} | {T.akey(e.result) for e in tr.calls() if e.callee == ("lib", "int")}
+    ctx.ob("IDX", "LinearFourRates.update", "the labels index the matrix as integers (coerced with 1 * y / int(y)), whatever their dtype", all(T.akey(i) in coerced for i in path),
+           "with boolean labels an uncoerced index is a mask: (True, True) touches every cell, anything else none", mu[0])
     def who(t):
         yp = T.mentions(t, lambda a: a == ("param", "y_pred"))
         yt = T.mentions(t, lambda a: a == ("param", "y_true"))
